@@ -634,6 +634,11 @@ func r14Reader(c *RuleCtx) {
 					if int(hi.k-lo.k) != w {
 						dest += fmt.Sprintf("?slice-width-%d", hi.k-lo.k)
 					}
+					if dest == "?" && onlyCompared(x) {
+						// a peek (the version looked at early to size a bounds check): it is stored in no
+						// field and decides nothing but a comparison — not part of what the reader decodes
+						continue
+					}
 					acc.reads = append(acc.reads, read{int(-lo.k), w, dest})
 				}
 				if sp, op, w, ok := beReadHelper(x.Call.StaticCallee()); ok && c.p.InZap(x.Call.StaticCallee()) {
@@ -1374,6 +1379,18 @@ func chunkRole(p *Program, v ssa.Value) string {
 					role = "postings"
 				case namedFn(f, "newChunkedContentCoder"):
 					role = "docvalues"
+				case f.Name() == "SetChunkSize" && f.Signature.Recv() != nil && isNamed(f.Signature.Recv().Type(), zapPkgPath, "chunkedContentCoder"):
+					role = "docvalues"
+				default:
+					// handed to a helper of the package (`io.docValueCoder(chunkSize, …)`, `c.reinit(chunkSize, …)`):
+					// classified by what the helper does with that parameter
+					if p.InZap(f) && len(f.Blocks) > 0 && depth < 4 {
+						for ai, a := range y.Common().Args {
+							if a == x && ai < len(f.Params) {
+								visit(f.Params[ai], depth+1)
+							}
+						}
+					}
 				}
 			case *ssa.BinOp:
 				if y.Op == token.QUO && y.Y == x {
@@ -1571,4 +1588,27 @@ func nonDebugRefs(v ssa.Value) []ssa.Instruction {
 		}
 	}
 	return out
+}
+
+// onlyCompared: the value is used by comparisons only.
+func onlyCompared(v ssa.Value) bool {
+	if v.Referrers() == nil {
+		return false
+	}
+	n := 0
+	for _, r := range *v.Referrers() {
+		switch x := r.(type) {
+		case *ssa.DebugRef:
+		case *ssa.BinOp:
+			switch x.Op {
+			case token.EQL, token.NEQ, token.LSS, token.LEQ, token.GTR, token.GEQ:
+				n++
+			default:
+				return false
+			}
+		default:
+			return false
+		}
+	}
+	return n > 0
 }
